@@ -86,8 +86,8 @@ TNext ==
          /\ LET e == TraceLog[l] IN
             \/ /\ e.ev = "reset"
                /\ LoadAccts(LogAccts(e.st), LogEdges(e.st))
-               /\ active' = [u \in Users |-> e.st.active[u]]
-               /\ defrole' = [u \in Users |-> e.st.defrole[u]]
+               /\ active' = [u \in Users |-> IF u \in DOMAIN e.st.active THEN e.st.active[u] ELSE "all"]
+               /\ defrole' = [u \in Users |-> IF u \in DOMAIN e.st.defrole THEN e.st.defrole[u] ELSE "all"]
                /\ act' = [name |-> "reset"] /\ ret' = "none" /\ eff' = "none" /\ step' = 0
             \/ e.ev = "step" /\ ApplyAct(e.act)
             \/ /\ e.ev \in {"matrix", "reload"}
